@@ -11,6 +11,7 @@ TECHNIQUE = ('runtime monitoring: paused-flag assertion at every step entry + di
              'interpreter of the program text, under enumerated pause/play/resume placements')
 RULE = ('programs x sequences of K<=2 (thorough: sampled K=3,4) requests from {pause,play,resume} at every loop-callback slot, each run '
         'completed by a final play and the owed resumes; distinct by (program, plan); non-trivial when a pause or play reached a live process')
+RULE += ('; also: outline workchains (pauses issued by steps and listeners), listeners that play and pause again within one notification')
 ASSUMPTIONS = ['programs depend only on their arguments (deterministic)', 'expected trace comes from an independent interpreter of the program text, '
                'cross-checked against the uninterrupted run of the real code']
 REQUIRED = ['calls_on_terminated', 'step_entries', 'pause_live', 'play_while_paused', 'pause_phase/running-step', 'pause_phase/waiting-step', 'pause_phase/between-steps-or-unstarted',
